@@ -506,6 +506,10 @@ impl Check for C11 {
                     if !quick {
                         // bound 3 on the smallest scenario of each kind
                         v.push(C11Case { bed, nchrom: 2, items: 2, ips: 1, source, two_pass, chan: 0, inmemory: true, bound: 3, sweep_threads: None, conv: false, long_rest: 0, cli: false, uncompressed: false, nonfinite: false });
+                        // ... and on two scenarios with several sections per chromosome: default channel with
+                        // staging in memory, channel capacity 1 with temporary files
+                        v.push(C11Case { bed, nchrom: 2, items: 3, ips: 2, source, two_pass, chan: 100, inmemory: true, bound: 3, sweep_threads: None, conv: false, long_rest: 0, cli: false, uncompressed: false, nonfinite: false });
+                        v.push(C11Case { bed, nchrom: 2, items: 3, ips: 1, source, two_pass, chan: 1, inmemory: false, bound: 3, sweep_threads: None, conv: false, long_rest: 0, cli: false, uncompressed: false, nonfinite: false });
                     }
                 }
             }
@@ -623,7 +627,7 @@ impl Check for C11 {
         let q = tier == Tier::Quick;
         json!({
             "layer1_scenarios": "bigWig/bigBed x {serial iterator, serial file, parallel file} x {single, two-pass} x (chromosomes, items_per_slot, channel size, buffering) combinations",
-            "deviation_bound": if q { "2 (all executions with 0, 1, 2 yields)" } else { "2 on all scenarios, 3 on the smallest of each kind" },
+            "deviation_bound": if q { "2 (all executions with 0, 1, 2 yields)" } else { "2 on all scenarios, 3 on three small scenarios of each kind" },
             "hook_points": "task starts and hand-offs in bbiwrite.rs, bigwigwrite.rs, bigbedwrite.rs, beddata.rs (cfg bigtools_verif)",
             "layer3b_cli_sweep": "bedgraphtobigwig / bedtobigbed binaries x threads {1,2,3,6,16} x --parallel {no,yes,auto} x --inmemory x pass mode on an 8-chromosome input: output files byte-identical (sampling over OS schedules; supplementary)",
             "layer3_sweep": "threads x {current, multi} x channel {0,1,100} x buffering x {serial, parallel} x pass, 3 repetitions each (sampling over OS schedules; supplementary)",
